@@ -4,6 +4,13 @@ import json, os
 HERE = os.path.dirname(os.path.dirname(os.path.abspath(__file__)))
 CLAIMED = {k: v for k, v in json.load(open(os.path.join(HERE, "manifest_claims.json"))).items() if not k.startswith("_")}
 ALL = ["C%02d" % i for i in range(1, 21)]
+BOUNDED = {"C01": "end-to-end exerciser over loopback TCP", "C02": "dispatcher corpus", "C03": "dispatcher corpus", "C04": "dispatcher corpus",
+           "C05": "dispatcher corpus", "C06": "runtime contracts over an enumerated corpus", "C07": "generated class shapes",
+           "C08": "class-name corpus with an import spy", "C09": "pool schedules under a deterministic scheduler",
+           "C10": "pool schedules under a deterministic scheduler", "C11": "pool schedules under a deterministic scheduler",
+           "C12": "lifecycle histories and concurrent clients", "C13": "dispatcher corpus",
+           "C15": "plain nestings and descriptor shapes", "C16": "FutureResult schedules under a deterministic scheduler",
+           "C17": "framing harness", "C18": "header-stack enumeration", "C20": "handler tables and ignore lists on generated shapes"}
 checks = []
 for pid in ALL:
     c = CLAIMED.get(pid)
@@ -16,9 +23,10 @@ for pid in ALL:
         "evidence_file": "evidence/%s.json" % pid,
         "replay_cmd_template": "bin/verif replay {path}",
         "engine": "pyvc",
-        "level_claimed": {"category": c.get("category", "proof"), "text": c["text"], "design_ref": c.get("design_ref", "DESIGN.md section 4")},
+        "level_claimed": {"category": c.get("category", "proof"), "text": c["text"], "design_ref": c.get("design_ref", "DESIGN.md sections 4 and 10")},
         "level_note": c["note"],
-        "technique": c.get("technique", "contracts on the real functions; VCs generated from the AST of /repo by pyvc; discharged by z3"),
+        "technique": c.get("technique", "contracts on the real functions; VCs generated from the AST of /repo by pyvc; discharged by z3"
+                           + ("; bounded stand-in on the real code (labelled, not counted as proved): " + BOUNDED[pid] if pid in BOUNDED else "")),
     })
 na = [{"property_id": pid, "reason": (CLAIMED.get(pid) or {}).get("not_applicable", "machinery for this property is not built yet in this session (see DESIGN.md section 4 for the plan)")}
       for pid in ALL if not CLAIMED.get(pid) or CLAIMED[pid].get("not_applicable")]
